@@ -61,6 +61,11 @@ def make_cases(rng, tier):
     add('tplb-u8-high', dh.base_cfg('tplb', S=2, W=1, classes=(0, 1)), tmin=180, tmax=255, combos_q=hi8[1:], combos_t=hi8, nrows=n - 1)
     add('ttest-u8-high', dh.base_cfg('ttest', S=2, W=1), tmin=100, tmax=255, combos_q=hi8[:1], combos_t=hi8, nrows=n - 1)
     add('dpa-u8-high', dh.base_cfg('dpa', S=1, W=2), tmin=16, tmax=255, combos_q=hi8[1:], combos_t=hi8, nrows=n - 1)
+    # every batch presented 401 times (odd: low bits survive): per-batch sums of squares and products beyond 2^24, with the requested precision float64
+    add('cpa-u8-high-x401', dh.base_cfg('cpa', S=1, W=2), subs=('std',), tmin=201, tmax=255, combos_q=hi8[:1], combos_t=hi8[:1], nrows=n - 1, dvals=[201, 233, 255])
+    cs[-1]['rep'] = 401
+    add('dpa-u8-high-x401', dh.base_cfg('dpa', S=2, W=1), tmin=201, tmax=255, combos_q=hi8[:1], combos_t=hi8[:1], nrows=n - 1)
+    cs[-1]['rep'] = 401
     return cs
 
 
